@@ -243,7 +243,7 @@ def check_c14(idx: Index, tier: str, res: Result) -> None:
             elif isinstance(node, ast.AugAssign):
                 tg = [node.target]
             for t in tg:
-                if dotted(t) == "self.agents":
+                if dotted(t) == "self.agents" or (isinstance(t, ast.Subscript) and dotted(t.value) == "self.agents"):
                     w_agents = True
                 if dotted(t) == "self.agent_type_map" or (isinstance(t, ast.Subscript) and dotted(t.value) == "self.agent_type_map"):
                     w_map = True
@@ -422,6 +422,14 @@ def check_c11(idx: Index, tier: str, res: Result) -> None:
                 res.check("KIND", "dead receiver filtered", guarded, run_step.loc(c), run_step.qual, src(c),
                           "an id that no longer exists is not filtered before the delivery dereferences the lookup result",
                           key="KIND/SimultaneousScheduler.run_step/none-receiver")
+            elif isinstance(t, (ast.Call, ast.Subscript)) and _cached_index_base(t, assigns) is not None:
+                base = _cached_index_base(t, assigns)
+                res.check("KIND", "delivery target %s is looked up in an index built for this distribution" % src(t), False, run_step.loc(c),
+                          run_step.qual, src(t),
+                          "the receiver is looked up in %s, an index kept on an object across steps instead of being built from "
+                          "model.agents for this distribution: after agents are deleted and created (same count, different ids) the index "
+                          "is stale - an event reaches a deleted agent's object or is dropped although its receiver exists" % base,
+                          key="KIND/SimultaneousScheduler.run_step/cached-index=%s" % base)
             else:
                 raise AnalysisError("unrecognised delivery target %r" % src(t))
     for f in (SCHED, SIMSCHED, AGENT):
@@ -580,6 +588,23 @@ def check_c11(idx: Index, tier: str, res: Result) -> None:
               "kept and its events are handled steps later (or never); path: %s"
               % (" ".join(flow.witness(cfg.exit, False)) if False in reach else "for-loop without clearing"),
               key="DRAIN/Agent.handle_events/inbox-kept")
+
+
+def _cached_index_base(t: ast.AST, assigns: Optional[Dict[str, List[ast.AST]]] = None) -> Optional[str]:
+    """idx.get(K) / idx[K] where idx is an attribute (self.x / model.x), or a local alias of one: a cached lookup table."""
+    if isinstance(t, ast.Call) and call_name(t) == "get" and isinstance(t.func, ast.Attribute):
+        base = t.func.value
+    elif isinstance(t, ast.Subscript):
+        base = t.value
+    else:
+        return None
+    if isinstance(base, ast.Name) and assigns and base.id in assigns:
+        for v in assigns[base.id]:
+            if isinstance(v, ast.Attribute) and v.attr != "agents":
+                return dotted(v)
+    if isinstance(base, ast.Attribute) and base.attr != "agents":
+        return dotted(base)
+    return None
 
 
 def _id_index_of(t: ast.AST, assigns: Dict[str, List[ast.AST]]) -> Optional[ast.AST]:
@@ -776,6 +801,32 @@ def check_c12(idx: Index, tier: str, res: Result) -> None:
         raise AnalysisError("agent loop not found in run_step")
     aloop = body_loops[0]
     avar = aloop.target.id if isinstance(aloop.target, ast.Name) else None
+    # the loop iterates the live list itself: nothing reachable from agent code may shrink or reorder it in place
+    # (delete_agents rebinds self.agents, so the running iteration keeps the list it started with; append is how agents are born)
+    snapshot = isinstance(aloop.iter, ast.Call) and call_name(aloop.iter) in ("list", "tuple")
+    if not snapshot:
+        mcls = idx.cls(MODEL, "Model")
+        for name, defs in mcls.methods.items():
+            fi_ = defs[-1]
+            for n in walk_no_nested(fi_.node):
+                hit = None
+                if isinstance(n, (ast.Assign, ast.AugAssign)):
+                    tg = n.targets if isinstance(n, ast.Assign) else [n.target]
+                    for t in tg:
+                        if isinstance(t, ast.Subscript) and dotted(t.value) == "self.agents":
+                            hit = n
+                if isinstance(n, ast.Delete) and any(isinstance(t, ast.Subscript) and dotted(t.value) == "self.agents" for t in n.targets):
+                    hit = n
+                if isinstance(n, ast.Call) and isinstance(n.func, ast.Attribute) and dotted(n.func.value) == "self.agents" and \
+                        n.func.attr in ("remove", "pop", "insert", "sort", "reverse", "clear", "extend"):
+                    hit = n
+                if hit is not None:
+                    res.check("ORDER", "Model.%s does not edit the agent list in place" % name, False, fi_.loc(hit), fi_.qual, norm_stmt(hit)[:100],
+                              "Model.%s edits self.agents in place (%s) while SimultaneousScheduler.run_step iterates directly over "
+                              "model.agents: when an agent or handler calls it during a step, the list shifts under the iterator and the next "
+                              "live agent neither handles its events nor acts in that step" % (name, norm_stmt(hit)[:60]),
+                              key="ORDER/Model.%s/in-place-edit-of-agents" % name)
+        res.ob("ORDER", "no Model method edits the agent list in place (the step loop iterates it directly)", True)
     cfg = build_cfg(rs.node, rs.qual)
     EVENTS = ["distribute", "begin_round", "handle_events", "act", "end_round", "collect"]
 
